@@ -11,6 +11,8 @@ counterexample.
 Not covered: OS / power-loss durability of un-synced WAL data, torn RocksDB internals.
 -/
 import Brc20.Proofs.Crash
+import Brc20.Proofs.NodeCrash
+import Brc20.Gen.Tables
 
 namespace Brc20
 open Table
@@ -72,5 +74,57 @@ theorem C04.former_counterexample_recovers : True ∧
       ((tl.crashCommit 10 16 1).reorg 10 16).map (fun t => t.latest 0) = some (some 1)) := by
   refine ⟨trivial, ?_⟩
   decide
+
+/-! ### The engine: all tables, one global write sequence
+
+The engine commits its tables one after another (`commit_changes`: the three block tables, then the twelve versioned
+tables), each table issuing its own writes in sequence.  `Node.crashCommitAt n j` = the first `j` writes of that
+global sequence, then the process dies and the directory is reopened.  The theorems hold for ANY order of the tables
+(`crashCommitAtIn_reorg_ok`), so they do not depend on the order being transcribed correctly. -/
+
+open Node in
+/-- A prefix of the global write sequence cuts every table at its own index: some tables complete, one partial, the
+rest untouched. -/
+theorem C04.engine_crash_is_per_table (n : Node) (j : Nat) :
+    n.crashCommitAt j = n.crashIdx (n.ibOf j) (n.itOf j) := Node.crashCommitAt_eq_crashIdx n j
+
+open Node in
+/-- **Crash at any write of an engine commit.**  For a node whose tables refine plain logs `g`, every global write
+index `j` and every target `n0` that is inside every table's window, durable in every table, whose hash row is
+persisted, with all block rows of the pending commit above it and inside the engine's own acceptance tests: after the
+crash and reopen, `brc20_reorg(n0)` is accepted, every versioned table reads its value at the end of block `n0` for
+every key, every block table holds exactly the persisted rows `≤ n0`, nothing is under construction and the node
+stands at height `n0`. -/
+theorem C04.engine_crash_in_commit_recoverable (n : Node) (g : TId → TSpec String String) (hs : NodeSim n g) (j n0 : Nat)
+    (hw : ∀ i, (g i).maxEver ≤ n0 + W)
+    (hdur : ∀ i k, ((g i).cur k).valAt n0 = ((g i).dur k).valAt n0)
+    (habove : ∀ i, ∀ p ∈ (n.b i).cache, n0 < p.1)
+    (hlat : ∀ h x, n.latest = some (h, x) → (n.b .numberToHash).lastKey = some h)
+    (hrow : (n.b .numberToHash).db.get? n0 ≠ none)
+    (hdeep : n.latestHeight ≤ n0 + W) (hmax : n.maxBlock.getD 0 ≤ W + n0) :
+    ∃ r, (n.crashCommitAt j).reorg n0 = (r, .ok) ∧ RestoredAt n g n0 r ∧
+      r.latestHeight = n0 ∧ r.nextHeight = n0 + 1 :=
+  Node.crashCommitAt_reorg_ok n g hs j n0 hw hdur habove hlat hrow hdeep hmax
+
+open Node in
+/-- **Crash inside `brc20_reorg(m)`** (at any write of its table phase), then reopen and `brc20_reorg(n0)` with
+`n0 ≤ m`: restored to `n0`. -/
+theorem C04.engine_crash_in_reorg_recoverable (n : Node) (g : TId → TSpec String String) (hs : NodeSim n g)
+    (m j n0 : Nat) (hnm : n0 ≤ m) (hmW : m ≤ n0 + W)
+    (hw : ∀ i, (g i).maxEver ≤ n0 + W)
+    (hdur : ∀ i k, ((g i).cur k).valAt n0 = ((g i).dur k).valAt n0)
+    (hrow : (n.b .numberToHash).db.get? n0 ≠ none)
+    (hkeys : ∀ k, (n.b .numberToHash).db.get? k ≠ none → k ≤ n0 + W) (hmax : n.maxBlock.getD 0 ≤ W + n0) :
+    ∃ r, (n.crashReorgAt m j).reorg n0 = (r, .ok) ∧ RestoredAt n g n0 r ∧
+      r.latestHeight = n0 ∧ r.nextHeight = n0 + 1 :=
+  Node.crashReorgAt_reorg_ok n g hs m j n0 hnm hmW hw hdur hrow hkeys hmax
+
+open Node in
+/-- The order in which the model's global write sequence walks the tables is the order of `commit_changes` in the
+source now (regenerated; indices into the declaration order). -/
+theorem C04.commit_order_is_the_sources :
+    commitOrderT = Gen.commitVersioned.filterMap (fun i => allTIds[i]?) ∧
+    commitOrderB = Gen.commitBlock.filterMap (fun i => allBIds[i]?) ∧
+    reorgOrderT = Gen.reorgVersioned.filterMap (fun i => allTIds[i]?) := by decide
 
 end Brc20
